@@ -105,6 +105,7 @@ class Gen:
         self.mods = []       # (name, type, init, final)
         self.arrays = []     # (name, type, values)
         self.enums = []      # (name, value)
+        self.bfs = []        # bit-field objects: (name, base type, width, initial value)
         self.feat = set()
         self.const_only = const_only
         self.allow_side = allow_side and not const_only
@@ -154,6 +155,8 @@ class Gen:
                 return E("'%s'" % c, LONG, ord(c))
             v = ch.choice([0, 1, 2, 3, 5, 7, 8, 31, 32, 63, 64, 100, 255, 65535, 2147483647, 4294967295, 4294967296])
             return E(str(v), LONG, v)
+        if self.allow_side and not self.const_only and ch.int(0, 9) == 0:
+            return self.bf_leaf()
         k = ch.int(0, 11)
         if k <= 6 or (k >= 10 and self.const_only and False):
             t = ch.choice(self.types)
@@ -182,6 +185,44 @@ class Gen:
         t = ch.choice(self.types)
         v = self.value(t)
         return E(lit(t, v), t, v)
+
+    def bf_leaf(self):
+        """A fresh bit-field object, read directly or as the value of an assignment, ++/--, op= or comma expression.  Widths are
+        at most 32, and 32 only for int/unsigned bases, where gcc, clang and 6.3.1.1p2 agree on the promoted type: int unless the
+        field is an unsigned one of width 32."""
+        ch = self.ch
+        base = ch.choice([INT, UINT, LONG, ULONG])
+        w = ch.choice([1, 2, 3, 7, 8, 15, 16, 31] + ([32] if base.bits == 32 else []))
+        pt = UINT if (w == 32 and not base.signed) else INT
+
+        def fit(x):
+            x &= (1 << w) - 1
+            return x - (1 << w) if (base.signed and x >> (w - 1)) else x
+        v0 = fit(ch.bits(64) if ch.bool() else ch.choice([0, 1, -1, (1 << (w - 1)) - 1, 1 << (w - 1), (1 << w) - 1]))
+        n = '@bf%d' % len(self.bfs)
+        self.bfs.append((n, base, w, v0))
+        self.nt = True
+        form = ch.int(0, 5)
+        self.feat.add('bit-field:%s' % ['read', 'assign', 'pre-incdec', 'comma', 'op-assign', 'read'][form])
+        f = '%s.f' % n
+        if form == 1:
+            x = self.value(ch.choice(self.types))
+            nv = fit(x)
+            return E('(%s = %s)' % (f, lit(LONG if x < 0 else ULONG, x)), pt, conv(nv, pt))
+        if form == 2:
+            d = ch.choice([1, -1])
+            nv = fit(v0 + d)
+            return E('(%s%s)' % ('++' if d > 0 else '--', f), pt, conv(nv, pt))
+        if form == 3:
+            return E('(0, %s)' % f, pt, conv(v0, pt))
+        if form == 4:
+            k = ch.int(1, 200)
+            op = ch.choice(['+', '-', '|', '^'])
+            a = conv(v0, pt)                        # the operation is done on the promoted value, then converted back to the field
+            r = {'+': a + k, '-': a - k, '|': a | k, '^': a ^ k}[op]
+            nv = fit(conv(r, common(pt, INT)))
+            return E('(%s %s= %d)' % (f, op, k), pt, conv(nv, pt))
+        return E('(+%s)' % f, pt, conv(v0, pt))       # not the bare member: sizeof and typeof of a bit-field are constraint violations
 
     def array(self):
         ch = self.ch
@@ -507,6 +548,8 @@ class Gen:
             out.append('  volatile %s %s = %s;\n' % (t.name, n, lit(t, v)))
         for n, t, v0, _ in self.mods:
             out.append('  %s %s = %s;\n' % (t.name, n, lit(t, v0)))
+        for n, t, w, v0 in self.bfs:
+            out.append('  struct { %s f : %d; } %s = { %s };\n' % (t.name, w, n, lit(t, v0)))
         for n, t, vals in self.arrays:
             out.append('  %s %s[8] = {%s};\n' % (t.name, n, ', '.join(lit(t, v) for v in vals)))
         return ''.join(out)
